@@ -339,13 +339,13 @@ func Universes4(r *rand.Rand, n int) []Universe4 {
 		{"chain", 255, 252, 251}, // deep
 		{"chain", 3, 4, 5},
 		{"pairs", 12, 0, 15},
-		{"pairs", 255, 0, 255}, // deep
+		{"pairs", 255, 0, 255},   // deep
 		{"chain", 255, 254, 253}, // deep
 		{"pairs", 252, 251, 255}, // deep
-		{"chain", 0, 1, 255}, // deep
+		{"chain", 0, 1, 255},     // deep
 		{"chain", 7, 8, 9},
 		{"chain", 127, 128, 129},
-		{"pairs", 254, 3, 253}, // deep
+		{"pairs", 254, 3, 253},   // deep
 		{"chain", 251, 248, 247}, // deep
 		{"pairs", 4, 3, 5},
 		{"chain", 1, 2, 3},
